@@ -214,10 +214,34 @@ def examine(case):
     import random
     r2 = random.Random(case["seed"])
     g = gen.G(r2, tables=False, strings="hostile")
-    elems = []
-    for i in range(case["n"]):
+    # element specifications: a column, a number, a string, or — nested — a Python list / tuple (which wrap_constant turns
+    # into an Array / Tuple) or an explicit Array(...) / Tuple(...); singletons of nested elements included
+    counter = [0]
+
+    def spec(depth):
         x = r2.random()
-        elems.append("F('e%d')" % i if x < 0.4 else g.pynum() if x < 0.7 else g.string())
+        if depth < 2 and x < 0.22:
+            k = r2.choice(["list", "tuple", "Array", "Tuple"])
+            n = r2.choice([1, 1, 2, 3, 0])
+            return (k, [spec(depth + 1) for _ in range(n)])
+        counter[0] += 1
+        if x < 0.5:
+            return ("f", "F('e%d')" % counter[0])
+        return ("v", g.pynum() if x < 0.75 else g.string())
+
+    def src_of(e):
+        k, v = e
+        if k in ("f", "v"):
+            return v
+        inner_src = ", ".join(src_of(y) for y in v)
+        if k == "list":
+            return "[%s]" % inner_src
+        if k == "tuple":
+            return "(%s)" % (inner_src + ("," if len(v) == 1 else ""))
+        return "%s(%s)" % (k, inner_src)
+
+    especs = [spec(0) for _ in range(case["n"])]
+    elems = [src_of(e) for e in especs]
     src = ("Array(%s)" if kind == "array" else "Tuple(%s)") % ", ".join(elems)
     case["recipe"] = src
     obj = ns.ev(src)
@@ -232,13 +256,30 @@ def examine(case):
         res.requests.append(({"op": "render", "ctx": describe.d_ctx(kw), "term": describe.describe(obj)}, {"sql": text}, "get_sql"))
     except Unsupported as e:
         res.skipped = str(e)[:40]
-    inner = ",".join(ns.ev(e if e.startswith("F(") else "VW(%s)" % e).get_sql(**kw) for e in elems)
-    if kind == "tuple":
-        ref = "(%s)" % inner
-    elif d in ("POSTGRESQL", "REDSHIFT"):
-        ref = "ARRAY[%s]" % inner if elems else "'{}'"
-    else:
-        ref = "[%s]" % inner
+    def bracket(k, inner_text, empty):
+        if k in ("tuple", "Tuple"):
+            return "(%s)" % inner_text
+        if d in ("POSTGRESQL", "REDSHIFT"):
+            return "ARRAY[%s]" % inner_text if not empty else "'{}'"
+        return "[%s]" % inner_text
+
+    def ref_of(e):
+        k, v = e
+        if k == "f":
+            return ns.ev(v).get_sql(**kw)
+        if k == "v":
+            return ns.ev("VW(%s)" % v).get_sql(**kw)
+        return bracket(k, ",".join(ref_of(y) for y in v), not v)
+
+    def values_of(e):
+        k, v = e
+        if k == "f":
+            return []
+        if k == "v":
+            return [ns.ev(v)]
+        return [z for y in v for z in values_of(y)]
+
+    ref = bracket("Tuple" if kind == "tuple" else "Array", ",".join(ref_of(e) for e in especs), not especs)
     if text != ref:
         F("elements", "%s renders %s, the elements in order give %s" % (kind, text, ref), form=kind)
     # under a parameter collector: every data element is collected exactly once, in order, one placeholder each
@@ -246,7 +287,7 @@ def examine(case):
     ptext = obj.get_sql(parameter=P, **kw)
     got = list(P.get_parameters())
     import enum as _enum
-    want = [ns.ev(e) for e in elems if not e.startswith("F(")]
+    want = [z for e in especs for z in values_of(e)]
     want = [w.value if isinstance(w, _enum.Enum) else w for w in want]       # an Enum member stands for its value
     try:
         nph = sum(1 for t in sqlspec.lex(ptext) if t.kind == "ph")
